@@ -59,7 +59,15 @@ func VerifC06Tick() {
 	vAssume(ok)
 
 	cur := 0
+	wantLegacy, wantStructured := 2, 1
 	for i := 0; i < 2; i++ {
+		if i == 1 && vParam(3) == 1 {
+			// param 3 = 1: every candidate goes offline between the two ticks, so the second tick publishes EMPTY
+			// maps (with a snapshot count of 1 into the very slot that holds the first tick's list)
+			vAssume(alpha("updateStateIR", 2, vKey("n1")))
+			vAssume(alpha("updateStateIR", 2, vKey("n2")))
+			wantLegacy, wantStructured = 0, 0
+		}
 		e := vInt("e1")
 		a, c := vBool("alphabetSigns1"), vBool("committeeMajoritySigns1")
 		if i == 1 {
@@ -92,10 +100,13 @@ func VerifC06Tick() {
 			_, r := vRead("netmap", "netmap")
 			nm := r.([]Node)
 			// legacy map = the non-offline candidates n1 (Online) and n2 (Maintenance)
-			vAssert(len(nm) == 2 && int(nm[0].State)+int(nm[1].State) == 4, "C06/legacy-map-is-the-non-offline-candidates")
+			vAssert(len(nm) == wantLegacy && (wantLegacy == 0 || int(nm[0].State)+int(nm[1].State) == 4), "C06/legacy-map-is-the-non-offline-candidates")
 			_, r2 := vRead("netmap", "listNodes", e)
 			ln := r2.([]Node2)
-			vAssert(len(ln) == 1 && vEq(ln[0].Key, vKey("n1")), "C06/structured-map-is-the-structured-candidates")
+			vAssert(len(ln) == wantStructured && (wantStructured == 0 || vEq(ln[0].Key, vKey("n1"))), "C06/structured-map-is-the-structured-candidates")
+			if i == 1 && wantLegacy == 0 {
+				vCover("empty-maps-published")
+			}
 			vAssert(readInt("probe1", "last") == e && readInt("probe2", "last") == e, "C06/every-subscriber-called-with-the-epoch")
 			names := vEventNames()
 			vAssert(len(names) == 3 && names[0] == firstP+".Tick" && names[1] == secondP+".Tick" && names[2] == "netmap.NewEpoch",
